@@ -12,14 +12,14 @@ from ..strategies import finite
 from . import _graph as G
 
 FUZZ = ["bracket"]
-RULE = ("Pairs of connected simple graphs (random spanning trees biased to paths + extra edges; paths, cycles, stars, cliques, complete bipartite "
+RULE = ("Pairs of connected simple graphs with 1..12 vertices for the exact oracle (random spanning trees biased to paths + extra edges; paths, cycles, stars, cliques, complete bipartite "
         "graphs) in random labelings; np.random.seed(s) with a generated s immediately before the call (the RNG state is an input owned by the "
         "harness); mapping_sample_size_order default or two floats in [-1, 2] given as array / list / tuple.")
 ASSUMPTIONS = [
     "exact distance by branch and bound over all maps in both directions, distances from my own BFS (self-checked against itertools.product "
     "brute force on graphs with <= 4 vertices inside the exhaustive slice)",
     "graphs are passed as upper-triangular dense integer arrays, the documented form (other representations are C17's subject)",
-    "for 9..14 vertices the exact value is out of reach: validity predicates only (0 <= lb <= ub, half-integrality, lb <= half the distortion "
+    "for 13..18 vertices the exact value is out of reach: validity predicates only (0 <= lb <= ub, half-integrality, lb <= half the distortion "
     "of maps found by my own greedy search, ub >= half the diameter difference, isomorphic => lb == 0)",
 ]
 
@@ -57,7 +57,10 @@ def check_bracket(case, ctx):
     g, h = case["g"], case["h"]
     DX, DY = G.dist(g), G.dist(h)
     lb, ub = call(ctx, case, g, h)
-    true = mgh.exact(DX, DY)
+    try:
+        true = mgh.exact(DX, DY)
+    except mgh.Budget:
+        ctx.skip("exact oracle exceeded its node budget (highly symmetric pair)")
     dx, dy = mgh.diameter(DX), mgh.diameter(DY)
     trivial = 0.5 * max(abs(dx - dy), int(g["n"] != h["n"]))
     ctx.label("diam=%d" % max(dx, dy), "lb==ub" if lb == ub else "lb<ub", "lb>trivial" if lb > trivial else "lb==trivial",
@@ -69,7 +72,7 @@ def check_bracket(case, ctx):
 
 @st.composite
 def s_iso(draw):
-    g = draw(G.connected_graph(1, 9))
+    g = draw(G.connected_graph(1, 14))
     return {"g": g, "perm": draw(st.permutations(list(range(g["n"])))), "seed": draw(st.integers(0, 2 ** 32 - 1)), "order": draw(s_order),
             "order_form": draw(st.sampled_from(["array", "list", "tuple"]))}
 
@@ -134,14 +137,14 @@ def VALID_DEFAULT(case):
 
 
 CLAUSES = [
-    Clause("bracket", s_pair(1, 8), check_bracket, quick=4000, thorough=50000, fuzz=True, floors={"lb>trivial": 0.02},
-           rule="1..8 vertices each: lb <= exact mGH <= ub, both non-negative half-integers; non-trivial = both graphs >= 3 vertices, max "
+    Clause("bracket", s_pair(1, 12), check_bracket, quick=12000, thorough=120000, fuzz=True, floors={"lb>trivial": 0.02},
+           rule="1..12 vertices each: lb <= exact mGH <= ub, both non-negative half-integers; non-trivial = both graphs >= 3 vertices, max "
                 "diameter >= 2 and exact distance > 0"),
-    Clause("isomorphic", s_iso(), check_iso, quick=2000, thorough=25000,
-           rule="a graph against a relabelled copy of itself (1..9 vertices): lb == 0 for every labeling, RNG state and sample size; "
+    Clause("isomorphic", s_iso(), check_iso, quick=6000, thorough=60000,
+           rule="a graph against a relabelled copy of itself (1..14 vertices): lb == 0 for every labeling, RNG state and sample size; "
                 "non-trivial = >= 4 vertices, diameter >= 2, non-identity relabelling"),
-    Clause("large_validity", s_pair(9, 14), check_large, quick=600, thorough=8000,
-           rule="9..14 vertices (exact value out of reach): 0 <= lb <= ub, half-integrality, lb <= half the distortion of maps found by an "
+    Clause("large_validity", s_pair(13, 18), check_large, quick=800, thorough=8000,
+           rule="13..18 vertices (exact value out of reach): 0 <= lb <= ub, half-integrality, lb <= half the distortion of maps found by an "
                 "independent greedy search in both directions, ub >= trivial bound; non-trivial = max diameter >= 3 and lb > 0"),
     Clause("small_slice", cases=slice_cases, check=check_slice,
            rule="EXHAUSTIVE: all 44 x 44 ordered pairs of connected labelled graphs on <= 4 vertices x 3 RNG seeds; oracle cross-checked against "
